@@ -10,4 +10,8 @@ trap 'rm -rf "$W"' EXIT
 (cd /repo && go build -o "$W/moq" .) || { echo "HARNESS ERROR: /repo does not build"; exit 2; }
 (cd /verif/mc && go build -o "$W/vcheck" ./cmd/vcheck) || { echo "HARNESS ERROR: checker does not build against /repo"; exit 2; }
 mkdir -p "$W/work"
-VCHECK_MOQ="$W/moq" VCHECK_WORK="$W/work" "$W/vcheck" check "$prop" --tier "$tier"
+if [ "$prop" = replay ]; then
+  VCHECK_MOQ="$W/moq" VCHECK_WORK="$W/work" "$W/vcheck" replay "$2"
+else
+  VCHECK_MOQ="$W/moq" VCHECK_WORK="$W/work" "$W/vcheck" check "$prop" --tier "$tier"
+fi
